@@ -22,12 +22,14 @@ type exprT struct {
 	B  *exprT  `json:"b,omitempty"`  // bin right, mcall argument
 }
 
-// stmtT: K = print | set | eval
+// stmtT: K = print | set | eval | lit (func() { S }(): the call of a function literal, a statement
+// whose first token is `func`)
 type stmtT struct {
 	K   string `json:"k"`
 	Tag int    `json:"tag,omitempty"`
 	X   string `json:"x,omitempty"`
-	E   *exprT `json:"e"`
+	E   *exprT `json:"e,omitempty"`
+	S   *stmtT `json:"s,omitempty"`
 }
 
 type bodyT struct {
@@ -136,6 +138,8 @@ func (s *stmtT) sexp() string {
 		return common.L("set", common.Q(s.X), s.E.sexp())
 	case "eval":
 		return common.L("eval", s.E.sexp())
+	case "lit":
+		return common.L("lit", s.S.sexp())
 	}
 	return "(bad)"
 }
@@ -227,6 +231,8 @@ func (s *stmtT) src(rn renamer) string {
 		return rn("var", s.X) + " = " + s.E.src(rn)
 	case "eval":
 		return "_ = " + s.E.src(rn)
+	case "lit":
+		return "func() { " + s.S.src(rn) + " }()"
 	}
 	return "BAD"
 }
